@@ -9,6 +9,7 @@ import yaml
 from common import S, enc_jv, run_batch, unS, work_dir
 
 MAIN = 'policy.yaml'
+SCALE = 4.0     # synthetic clock ticks per second (exact in binary floating point)
 DIRS = ['missing0.d', 'policy.d', 'missing.d', 'second.d']
 
 
@@ -17,13 +18,13 @@ class FsSim:
         self.root = root
         self.dirs = list(dirs)
         self.mainname = main
-        self.clock = 1000
+        self.clock = 4000                     # in quarter seconds: several changes fall into one whole second
         self.main = None                      # (mtime, mapping, fmt)
         self.dstate = {d: None for d in dirs}   # None (missing) | {'mtime': t, 'entries': {name: ('file', t, mapping, fmt) | ('sub', t)}}
         os.makedirs(root, exist_ok=True)
 
     def tick(self):
-        self.clock += 10
+        self.clock += 1
         return self.clock
 
     # ---- operations (each advances the clock)
@@ -86,7 +87,7 @@ class FsSim:
         else:
             with open(p, 'w') as f:
                 f.write(self._dump(self.main[1], self.main[2]))
-            os.utime(p, (self.main[0], self.main[0]))
+            os.utime(p, (self.main[0] / SCALE, self.main[0] / SCALE))
         for d, st in self.dstate.items():
             dp = os.path.join(self.root, d)
             if st is None:
@@ -105,12 +106,12 @@ class FsSim:
                     # something inside a sub-directory must never be read
                     with open(os.path.join(q, 'inner.yaml'), 'w') as f:
                         f.write(json.dumps({'inner': '@'}))
-                    os.utime(q, (e[1], e[1]))
+                    os.utime(q, (e[1] / SCALE, e[1] / SCALE))
                 else:
                     with open(q, 'w') as f:
                         f.write(self._dump(e[2], e[3]))
-                    os.utime(q, (e[1], e[1]))
-            os.utime(dp, (st['mtime'], st['mtime']))
+                    os.utime(q, (e[1] / SCALE, e[1] / SCALE))
+            os.utime(dp, (st['mtime'] / SCALE, st['mtime'] / SCALE))
 
     # ---- wire
     def wire(self):
@@ -178,7 +179,7 @@ def observe(e):
     fr = sorted((k, str(v.check)) for k, v in e.file_rules.items())
     mc = None
     if e.policy_path and e.policy_path in e._file_cache and e._file_cache[e.policy_path]:
-        mc = int(e._file_cache[e.policy_path].get('mtime', 0))
+        mc = int(round(e._file_cache[e.policy_path].get('mtime', 0) * SCALE))
     return {'rules': rules, 'file_rules': fr, 'path_known': bool(e.policy_path), 'mcache': mc}
 
 
